@@ -53,6 +53,8 @@ Section ValInd.
   Hypothesis HStr : forall z, P (VStr z).
   Hypothesis HInst : forall d, Forall (fun p => P (snd p)) d -> P (VInst d).
   Hypothesis HDict : forall d, Forall (fun p => P (snd p)) d -> P (VDict d).
+  Hypothesis HTuple : forall d, Forall (fun p => P (snd p)) d -> P (VTuple d).
+  Hypothesis HFrozen : forall d, Forall (fun p => P (snd p)) d -> P (VFrozen d).
   Fixpoint val_ind' (v : val) : P v :=
     match v with
     | VNone => HNone
@@ -66,6 +68,18 @@ Section ValInd.
                     end) d)
     | VDict d =>
         HDict d ((fix go (d : list (Z * val)) : Forall (fun p => P (snd p)) d :=
+                    match d with
+                    | [] => Forall_nil _
+                    | p :: t => Forall_cons p (val_ind' (snd p)) (go t)
+                    end) d)
+    | VTuple d =>
+        HTuple d ((fix go (d : list (Z * val)) : Forall (fun p => P (snd p)) d :=
+                    match d with
+                    | [] => Forall_nil _
+                    | p :: t => Forall_cons p (val_ind' (snd p)) (go t)
+                    end) d)
+    | VFrozen d =>
+        HFrozen d ((fix go (d : list (Z * val)) : Forall (fun p => P (snd p)) d :=
                     match d with
                     | [] => Forall_nil _
                     | p :: t => Forall_cons p (val_ind' (snd p)) (go t)
@@ -88,14 +102,12 @@ Qed.
 
 Lemma val_eqb_eq a : forall b, val_eqb a b = true <-> a = b.
 Proof.
-  induction a using val_ind'; intros [| | | |]; simpl; split; intro E;
+  induction a using val_ind'; intros [| | | | | |]; simpl; split; intro E;
     try reflexivity; try discriminate;
     try (apply Z.eqb_eq in E; congruence);
-    try (inversion E; apply Z.eqb_refl).
-  - f_equal. apply (alist_eqb_eq d H). exact E.
-  - inversion E; subst. apply (alist_eqb_eq _ H). reflexivity.
-  - f_equal. apply (alist_eqb_eq d H). exact E.
-  - inversion E; subst. apply (alist_eqb_eq _ H). reflexivity.
+    try (inversion E; apply Z.eqb_refl);
+    try (f_equal; apply (alist_eqb_eq d H); exact E);
+    try (inversion E; subst; apply (alist_eqb_eq _ H); reflexivity).
 Qed.
 
 Lemma val_eqb_refl a : val_eqb a a = true.
